@@ -28,7 +28,7 @@ ENTRY = {
                 "nodes over loopback TCP or WebSocket, each with 1-3 request-response protocols carrying 0-3 fallback names (well-formed tables over a pool of "
                 "versioned names, B mostly offering several of the names A proposes), protocol k of A sends one request: the real open_substream "
                 "(main :: fallbacks over a real yamux stream), accept_substream (ProtocolSet names in hash-map order), report_substream_open on both ends; "
-                "observed: A's terminal event with the fallback it reports, and which protocol of B got the request with which fallback. For a stream case the REAL dialer_select_proto / "
+                "observed: A's terminal event with the fallback it reports, and which protocol of B got the request with which fallback. DIFFERENTIAL STREAM AGAINST THE REFERENCE IMPLEMENTATION (mode 9; rust-libp2p's multistream-select 0.13.0 from the local cargo registry, a dependency of the harness): the same scripted duplex, scheduler script, four read/write scripts and payloads as the two-ended mode, with each end run by one of: litep2p's select future, the REFERENCE's dialer_select_proto / listener_select_proto (V1 and V1Lazy), litep2p's TCP / WebSocket negotiate_protocol; pairings reference dialer -> litep2p listener 35%, litep2p dialer -> reference listener 35%, reference -> reference (control) 10%, reference dialer -> the transports' accept path 10%, the transports' open path -> reference listener 10%; the exhaustive small scope (all pairs of lists over {/a, /a/b, /c}, length <= 2, 2 or 4 chunkings) for the first three pairings (1014 / 2028 cases) plus cases/8 random ones (names that are text: nested, fallback-style, multi-byte UTF-8, names with inner and trailing '/', 126..300-byte and 16381..16384-byte names, invalid names; 25% V1Lazy with ASCII payloads). The MODEL of both ends is the model of litep2p's futures: the reference is predicted to be byte-for-byte the same machine on this domain, so every byte either implementation writes, every result, every leftover is diffed. prop_ok: as the two-ended mode, and in addition (V1, names in the domain) the bytes EACH end put on the wire must equal the LEGAL conversation for the two lists (header, proposals in order up to the first supported one / header, one na per rejected proposal, the confirmation; then the payload) - which is the hypothesis of the any-legal-peer theorems. For a stream case the REAL dialer_select_proto / "
                 "listener_select_proto futures and the Negotiated streams they return are polled over a scripted in-memory duplex; each side then "
                 "writes its payload, closes and reads to EOF. Compared with the extracted Coq model: both results (index or error class), read-end "
                 "status, application bytes received by each side, every byte each side wrote, bytes left unread in each direction, stuck/terminated "
@@ -51,6 +51,7 @@ ENTRY = {
         "trusted_base": [
             "the scripted duplex of harness/src/c03.rs stands for the byte carrier (yamux/TCP below it is not modelled); writes to a dropped end are accepted, a dropped end reads as EOF once drained; poll_flush of the carrier is always Ready",
             "futures are polled with a no-op waker by the scheduler script, i.e. wake-ups are not relied upon",
+            "reference stream: the crate multistream-select 0.13.0 as found in the local cargo registry stands for `the reference libp2p implementation`; its names are `&str`, so the stream covers names that are valid UTF-8 (and ASCII payloads for an optimistic dialer, whose payload a listener may parse as frames); go-multistream / js are not available offline",
             "end-to-end mode: real sockets and real time (request timeout 5 s, harness patience 20 s); Noise, yamux and the transport manager are exercised but not modelled; only well-formed tables (no shared fallbacks, whose winner depends on hash-map order)",
             "timed mode: tokio's paused clock (start_paused, time::advance by 1 ms per tick inside a current-thread runtime) stands for real time; both wrappers read the same clock; the deadline is fixed at the first poll of negotiate_protocol (its async body creates the Timeout); open_substream's yamux open_stream and accept_substream's keep-alive lookup are outside (they need a yamux connection)",
             "ProtocolSet tables: a fallback name declared by several main protocols is resolved by HashMap iteration order; the harness steers the real map to the order given in the case (rebuilds until it agrees) instead of guessing",
@@ -88,6 +89,21 @@ ENTRY = {
                       "close put application bytes on the wire only after the whole negotiation buffer; a failed stream fails every later operation "
                       "(after the repair F-C03a; it panicked). (9) Composition: a substream opened with `main :: fallbacks` against a ProtocolSet: the "
                       "negotiated name is the most preferred offered one and both report_substream_open calls name the right main protocol + fallback. "
+                      "(10) AGAINST ANY LEGAL PEER (Peer.v, PeerTie.v; the reference implementation in particular): the per-poll byte-to-message simulation "
+                      "(SimD, SimL, SimSys) is parametric in an invariant of the peer; instantiated with an ENVIRONMENT that delivers, one byte at a time at "
+                      "arbitrary moments between the polls and under any carrier scripts, a stream whose frames satisfy the inductive predicates LegalL (a "
+                      "listener's answers: one na per unsupported proposal, the confirmation of the first supported one) / LegalD (a dialer's proposals: "
+                      "rejected names, then at most one accepted), followed by arbitrary application bytes and the close. For litep2p's dialer task and "
+                      "listener task (V1, byte-level machines of Model.v): a reported success carries the exact index of the first name the peer supports "
+                      "/ of the first entry equal to the accepted proposal and it is the name the peer agreed to; a reported failure means nothing could be "
+                      "agreed; at every moment bytes read ++ bytes in the pipe ++ bytes to come = the peer's payload (none consumed by the negotiation, none "
+                      "lost), clean EOF at the end; what the task wrote is exactly a legal conversation followed by its payload (so a correct peer agrees); "
+                      "both tasks TERMINATE against any byte stream, legal or not, that the peer finishes and closes. The wire bytes that the trace oracle of "
+                      "the reference stream demands are proved to be such legal conversations with the verdict of the property text, and the theorems are "
+                      "instantiated on them (C03_peer_reference_*_wire_*). The two legitimate differences between the implementations are stated explicitly "
+                      "(RefDiff.v): the reference's dialer accepts the header line repeatedly - its reaction differs on a second header only and against every "
+                      "legal listener it takes exactly litep2p's steps; the reference's names are text - the decoders agree on every UTF-8 name line and on "
+                      "every piece of an ASCII payload. "
                       "V1Lazy, dialer side: the future settles on its first poll (byte level); "
                       "for every application-data content, listener set and schedule the dialer's verdict is 'confirmed' iff the listener supports the "
                       "name (message level); the listener half of agreement is refuted by a witness (upstream-documented pitfall)."),
@@ -101,8 +117,34 @@ ENTRY = {
                       "demanded of every trace by prop_ok but its impossibility in the model is not a theorem. "
                       "That code 9 is only ever produced by the abort is not a theorem (the trace oracle checks `Timeout => enough ticks`). Termination of "
                       "the lazy stream (eventual completion under fairness) is not proved, only per-poll exactness. The carrier below the scripted duplex "
-                      "(yamux/TCP: what dropping a stream sends), open_substream/accept_substream's yamux parts and the differential against rust-libp2p's "
-                      "multistream-select are not covered."),
+                      "(yamux/TCP: what dropping a stream sends) and open_substream/accept_substream's yamux parts are not covered. Reference stream: the model of "
+                      "the reference end is litep2p's model (byte equality is an empirical finding re-checked every run, not a theorem about the reference's "
+                      "source); where the two implementations legitimately differ the domain is restricted rather than modelled: names that are not UTF-8 "
+                      "(the reference refuses them with InvalidProtocol where litep2p answers na), a second header frame (tolerated by the reference's dialer, "
+                      "InvalidMessage for litep2p's; Failed vs InvalidMessage in the optimistic stream) - no legal peer sends either -, operations on an "
+                      "optimistic stream after its negotiation failed (the reference panics, litep2p reports an error since F-C03a). The any-legal-peer "
+                      "theorems are V1 (for V1Lazy the per-poll theorems of layer 8 are already about an arbitrary well-formed answer); a legal dialer that "
+                      "asks `ls` is not in LegalD (the single-future mode diffs the ls answer; neither implementation ever asks); the environment does not "
+                      "consume the task's outbound pipe (no operation of the task depends on that buffer), and does not close before its stream is complete."),
+        "clause_map": [
+            ["both sides terminate", "C03_terminates (message level), C03_bytes_terminate, C03_timeout_terminates; against any peer: C03_peer_dialer_terminates, C03_peer_listener_terminates",
+             "two-ended stream mode (status flag diffed, prop_ok demands status 0), timed mode, reference stream"],
+            ["same protocol = the dialer's most preferred one the listener supports, otherwise both fail",
+             "C03_agreement_dialer/_listener, C03_bytes_dialer_result/_listener_result/_dialer_failure/_listener_failure, C03_bytes_run_correct; against any legal peer: C03_peer_dialer_vs_any_legal_listener, C03_peer_listener_vs_any_legal_dialer, C03_peer_own_wire_legal",
+             "two-ended stream mode incl. exhaustive small scope (exact indices in prop_ok), transports' negotiate_protocol (timed mode), end-to-end mode, reference stream"],
+            ["every byte written after negotiation reaches the other side unchanged; no application byte consumed by the negotiation",
+             "C03_frame_exact, C03_handover_*, C03_bytes_transparent, C03_lazy_read_exact/_write_exact, C03_timeout_survivor_clean; read ++ in-pipe ++ to-come = payload at every moment: C03_peer_dialer_vs_any_legal_listener, C03_peer_listener_vs_any_legal_dialer",
+             "payloads (incl. negotiation-looking frames) written right after negotiation in the stream modes, stream-operation mode, reference stream; bytes received / written / left in each direction diffed"],
+            ["against the reference libp2p implementation in either role",
+             "C03_peer_oracle_wire_legal, C03_peer_reference_dialer_wire_vs_listener, C03_peer_reference_listener_wire_vs_dialer (+ the any-legal-peer theorems above)",
+             "reference stream (mode 9): multistream-select 0.13.0 as dialer against litep2p's listener / accept path, litep2p's dialer / open path against it as listener, reference against reference as control; every byte diffed against the model, wire-legality in prop_ok"],
+            ["optimistic (lazy) dialer variant", "C03_lazy_immediate, C03_lazy_dialer_verdict, C03_lazy_expect_exact, C03_lazy_read_exact, C03_lazy_write_exact, C03_negotiated_failed_sticky, C03_lazy_listener_agreement_refuted (documented pitfall)",
+             "V1Lazy cases of the two-ended mode, stream-operation mode, V1Lazy cases of the reference stream in both roles"],
+            ["message-based variant for datagram-style transports", "C03_webrtc_listener_*, C03_webrtc_dialer_grouping, C03_webrtc_session_agreement",
+             "modes 1 and 2 (webrtc_listener_negotiate, WebRtcDialerState)"],
+            ["fallback names", "C03_fallback_*, C03_report_*, C03_substream_fallback_agreement/_listener, C03_sub_oracle_accepts_model",
+             "fallback-table mode, end-to-end mode"],
+        ],
         "assumptions": [
             "protocol names are valid: start with '/', contain no newline, differ from /multistream/1.0.0, and name+1 <= 16383 bytes (others are run and diffed, but only consistency is demanded)",
             "the carrier is a reliable FIFO byte stream per direction",
